@@ -19,7 +19,9 @@ def buildExpressionRec (stack : Stack) : Nat → Int → Bool → R Expr
     | some cmd =>
       match Ops.isTerminal cmd.node, Ops.isArity2 cmd.node with
       | some true, some _ =>
-        if cmd.node = CONSTANT then pure (term cmd.node location np) else pure (term cmd.node cmd.p1 true)
+        if cmd.node = CONSTANT then pure (term cmd.node location np)
+        else if cmd.node = INTEGER then pure (term cmd.node cmd.p1 false)   -- `int(param_1)`: an exact Python int
+        else pure (term cmd.node cmd.p1 true)
       | some false, some arity2 => do
         let a ← buildExpressionRec stack fuel cmd.p1 true
         if arity2 then do
